@@ -236,7 +236,8 @@ def decide(prop, tier, seed, args, t0):
                 print(f"VIOLATION property={prop} replay={path} obligation={name}")
             else:
                 print(f"VIOLATION property={prop} replay={path} obligation={name} no-failing-input-found")
-        rc = 1 if rc == 0 else rc
+        # a violation replayed on the real code stands even if another harness of the check crashed
+        rc = 1 if (rc == 0 or any(rep for _, _, rep, _ in violations)) else rc
     if rc == 0 and (undecided or unsupported or missing):
         for name, reason in undecided[:20]:
             print(f"UNDECIDED property={prop} obligation={name} reason={reason}")
